@@ -58,7 +58,8 @@ def conflicts (objs : List Obj) : List String :=
   (if banps.length > 1 then ["banpExists"] else []) ++
   (if banps.any (·.name != "default") then ["banpName"] else []) ++
   (if hasDup (v.anps.map (·.prio)) || v.anps.any (fun a => a.prio < 0 || a.prio > 1000) then ["anpPriority"] else []) ++
-  (if pods.any (fun p => p.ownerName != "" && pods.any (fun q => q.ownerName == p.ownerName && q.ns == p.ns && !sameLabels p.labels q.labels))
+  -- one owner = one (namespace, kind, name): Job x and ReplicaSet x are two owners
+  (if pods.any (fun p => p.ownerName != "" && pods.any (fun q => q.ownerName == p.ownerName && q.ownerKind == p.ownerKind && q.ns == p.ns && !sameLabels p.labels q.labels))
     then ["ownerLabels"] else [])
 
 /-- necessary condition of the documented deviation: an egress rule with a named port that may meet an IP destination -/
